@@ -287,12 +287,13 @@ static inline std::string first_violation(const Case &cs, int foundAnchor)
 {
     std::vector<int> path(cs.chain);
     if (foundAnchor >= 0) path.push_back(foundAnchor);
+    int below = 0;      // intermediates below the issuer of the current link
     for (size_t j = 0; j + 1 < path.size(); j++)
     {
         const Node &c = cs.n[(size_t) path[j]];
         const Node &iss = cs.n[(size_t) path[j + 1]];
         bool last = (j + 2 == path.size()) && foundAnchor >= 0;
-        if (last && path[j] == path[j + 1]) continue;       // anchor presented in the chain
+        if (path[j] == path[j + 1]) continue;       // the same certificate twice (duplicate, or the anchor presented in the chain)
         if (date_state(c) == D_OUT) return "accepts-out-of-date-cert";
         if (c.unk == 2) return "accepts-unknown-critical-ext";
         if (!sig_verifies(c, iss))
@@ -306,9 +307,10 @@ static inline std::string first_violation(const Case &cs, int foundAnchor)
         }
         if (iss.version == 3 && iss.bc != mint::BC_TRUE) return "accepts-non-ca-issuer";
         if (iss.version != 3 && !last) return "accepts-non-ca-issuer";
-        if (iss.version == 3 && iss.pathLen >= 0 && iss.pathLen < (int) j) return "accepts-pathlen-violation";
+        if (iss.version == 3 && iss.pathLen >= 0 && iss.pathLen < below) return "accepts-pathlen-violation";
         if (iss.version == 3 && iss.ku >= 0 && !(iss.ku & mint::KU_CERTSIGN)) return "accepts-issuer-without-keycertsign";
         if (revoked_lax(cs, c, iss)) return "accepts-revoked-cert";
+        below++;        // this issuer is an intermediate below the next one
     }
     return foundAnchor < 0 ? "accepts-without-anchor" : "accepts-invalid-path";
 }
